@@ -206,6 +206,29 @@ out+=f'''//@ func (Encoder).AppendFloat32(e, dst, val, unused) res
 //@ func (Encoder).AppendIPPrefix(e, dst, pfx) res
 {COMMON}//@   ensures prefix(res, dst) && res[len(dst)] == 0xd9 && res[len(dst) + 1] == 0x01 && res[len(dst) + 2] == 0x05 && res[len(dst) + 3] == 0xa1 && mt(res, len(dst) + 4) == 2
 {VAL}'''
+out+='''
+// ---------------------------------------------------------------------------
+// decode_stream.go: helper contracts for the safety sweep (C17). The sweep
+// itself needs no annotation; these give callers the two facts they rely on
+// (a read returns exactly the bytes asked for; positions stay inside the
+// string) and the loop invariants of the escaper.
+
+//@ func readNBytes(src, n) res
+//@   props C17 C08
+//@   arith bv
+//@   flag tags binary_log
+//@   ensures len(res) == n
+//@   loop 1:
+//@     invariant 0 <= i && i <= n && len(ret) == i
+
+//@ func decodeStringComplex(dst, s, pos) res
+//@   props C17 C08
+//@   arith bv
+//@   flag tags binary_log
+//@   requires int(pos) >= 0 && int(pos) <= len(s)
+//@   loop 1:
+//@     invariant 0 <= start && start <= i && i <= len(s)
+'''
 open('/repo/internal/cbor/zz_contracts_verif.go','w').write(out)
 print(out.count('//@ func'),'cbor function contracts')
 ROOT='''//go:build verif && binary_log
